@@ -13,6 +13,7 @@ def behOf? (s : String) : Option Beh :=
   | ["partialreset", k] => k.toNat?.map .pfx      -- what the client got before the reset = a prefix answer
   | ["shift", d] => d.toNat?.map .shift
   | ["forged", _] => some .forged
+  | ["panickyverify", _] => some .forged
   | ["panicky", _] => some .forged       -- a response the client cannot accept (its processing panics and is recovered)
   | _ => none
 
